@@ -554,6 +554,12 @@ func (s *BaseNodeService) reinitDKG(message storage.Message) error {
 			break
 		}
 
+		// the replayed messages are not signature-checked: they may only rebuild the round this
+		// reinitialisation names, never reach into another round of this node
+		if msg.DkgRoundID != req.DKGID {
+			continue
+		}
+
 		// LDC-07 Messages May Be Sent to a Single Node
 		//
 		// If we remove the broadcast and send only individual messages,
@@ -601,7 +607,7 @@ func (s *BaseNodeService) reinitDKG(message storage.Message) error {
 		return fmt.Errorf("failed to get FSM dump")
 	}
 
-	if err := s.fsmService.SaveFSM(message.DkgRoundID, fsmDump); err != nil {
+	if err := s.fsmService.SaveFSM(req.DKGID, fsmDump); err != nil {
 		return fmt.Errorf("failed to SaveFSM: %w", err)
 	}
 
